@@ -45,7 +45,7 @@ H(prop="C20", name="c20_anb_parse_spec_n6", crate="config-h", module="anb",
 H(prop="C20", name="c20_anb_parse_spec_n9", crate="config-h", module="anb", tier="thorough",
   decides="parse_an_b(s) == reference reading of An+B (accept/reject and (A,B)), for every s",
   functions=ANB_FUNCS[:1], shape="STR", bounds="all strings <= 9 bytes over {+,-,n,N,2,9,' '}; unwind 11")
-H(prop="C20", name="c20_anb_selects_small", crate="config-h", module="anb",
+H(prop="C20", name="c20_anb_selects_small", crate="config-h", module="anb", also=["C05"],
   decides="is_matched(A,B,i) <=> exists n>=0: i+1 = A*n+B",
   functions=ANB_FUNCS[1:], shape="INT", bounds="A in [-4,4], B in [-6,6], index < 12, n <= 18")
 
@@ -64,11 +64,23 @@ H(prop="C07", name="c07_split_first_meta_var_n7", crate="core-h", module="c07_te
   functions=TPL_FUNCS[1:2], shape="STR", bounds="all strings <= 7 bytes over {$,A,T,_,1,b} starting with $; unwind 9")
 
 # ---------------------------------------------------------------- C16
-H(prop="C16", name="c16_char_column_4ch", crate="core-h", module="c16_positions",
+H(prop="C16", name="c16_char_column_4ch", crate="core-h", module="c16_positions", also=["C19"], mem_gb=24,
   decides="get_char_column(offset) == number of chars since the last newline (forward decode)",
   functions=["ast_grep_core::source::<String as Content>::get_char_column"], assumes=[ST_UTF8],
-  shape="STR", bounds="all texts of <= 4 chars over {a, e-acute(2B), emoji(4B), \\n} (<= 16 bytes), every char-boundary offset; unwind 18")
-H(prop="C16", name="c16_display_context_n6", crate="core-h", module="c16_positions",
+  shape="STR", bounds="all texts of <= 4 chars over {a, \\n, U+00E9 (2B), U+07FF (2B, leader DF), U+0800 (3B, leader E0), U+FFFD (3B, leader EF), U+1F600 (4B)} (<= 16 bytes), every char-boundary offset; unwind 18")
+H(prop="C16", name="c16_char_column_layout12", crate="core-h", module="c16_positions", also=["C19"], mem_gb=24,
+  decides="get_char_column(byte column, offset) == number of chars since the last newline (forward decode)",
+  functions=["ast_grep_core::source::<String as Content>::get_char_column"], assumes=[ST_UTF8],
+  shape="STR", bounds="the 12-byte text x0 <2B> x1 <3B> U+1F600 x2 with x_i in {a, \\n}, <2B> in {U+00E9, U+07FF}, <3B> in {U+0800, U+FFFD} (symbolic), every char-boundary offset; unwind 14")
+H(prop="C16", name="c16_display_context_len3", crate="core-h", module="c16_positions", mem_gb=24, timeout=1800,
+  decides="Node::display_context(before, after): leading / matched / trailing / start_line == whole-line window around the node, clipped at the file edges",
+  functions=["ast_grep_core::node::Node::display_context"], assumes=[ST_TS],
+  shape="STR", bounds="every text of exactly 3 bytes over {a,\\n}, every node range, before/after <= 2; unwind 8")
+H(prop="C16", name="c16_display_context_len5", crate="core-h", module="c16_positions", mem_gb=24, timeout=1800,
+  decides="Node::display_context(before, after): leading / matched / trailing / start_line == whole-line window around the node, clipped at the file edges",
+  functions=["ast_grep_core::node::Node::display_context"], assumes=[ST_TS],
+  shape="STR", bounds="every text of exactly 5 bytes over {a,\\n}, every node range, before/after <= 2; unwind 8")
+H(prop="C16", name="c16_display_context_n6", crate="core-h", module="c16_positions", mem_gb=24,
   decides="display_context(before,after): leading/matched/trailing/start_line == whole-line window computed independently",
   functions=["ast_grep_core::node::Node::display_context"], assumes=[ST_TS],
   shape="STR+1 node", bounds="all texts <= 6 bytes over {a,\\n}, every node range s<=e<=len, before,after <= 2; unwind 8")
@@ -85,6 +97,13 @@ for ln in range(5):
                  "ast_grep_core::source::<String as Content>::accept_edit", "ast_grep_core::source::position_for_offset"],
       assumes=[ST_TS, "tree-sitter contract: incremental parse == fresh parse iff the old tree was edited exactly once with an exact InputEdit"],
       shape="STR", bounds=f"text length {ln}: every (position, deleted length, inserted length <= 2) size class enumerated concretely x symbolic contents over {{a,\\n}}/{{b,\\n}}; unwind 7")
+for ln in (1, 2):
+    H(prop="C10", name=f"c10_input_edit_multibyte_len{ln}", crate="core-h", module="c10_edit", mem_gb=20, timeout=1800, tier="quick" if ln == 1 else "thorough", min_covers=1,  # the row witness is dead code in this mode
+      decides="AstGrep::edit inserting the two-byte character U+00E9: new text == splice; exactly one Tree::edit whose InputEdit counts BYTES (new_end_byte = position + 2) and whose points are exact",
+      functions=["ast_grep_core::node::Root::do_edit", "ast_grep_core::source::perform_edit",
+                 "ast_grep_core::source::<String as Content>::accept_edit", "ast_grep_core::source::position_for_offset"],
+      assumes=[ST_TS, "tree-sitter contract: incremental parse == fresh parse iff the old tree was edited exactly once with an exact InputEdit"],
+      shape="STR", bounds=f"text length {ln} over {{a,\\n}} (symbolic contents), every (position, deleted length), inserted text = U+00E9 (2 bytes, concrete); unwind 7")
 
 # ---------------------------------------------------------------- small config kernels
 H(prop="C20", name="c20_resolve_char_python", crate="config-h", module="small_kernels",
@@ -160,6 +179,12 @@ for suf, pat, k, tier in (("t_cap_t_k2", "[T,$A,T]", 2, "quick"), ("ell_t_k2", "
       decides=f"pattern {pat}: get_match_len = Some(len) on a FLAT({k}) node with 2-byte children => len <= node length and len ends at a child end",
       functions=ALIGN_FUNCS[:4] + ["ast_grep_core::match_tree::ComputeEnd"], assumes=ALIGN_ASSUMES,
       shape=f"FLAT({k})", bounds=f"exactly {k} candidate leaves (2 bytes wide), symbolic labels, all 5 strictness; arena of 4 nodes, unwind 8 (matcher loops 6), alignment driven via match_nodes_impl_recursive, recursion depth 1")
+
+for suf, lvl, k in (("ast_k2", "ast", 2), ("smart_k2", "smart", 2), ("cst_k2", "cst", 2), ("signature_k2", "signature", 2), ("ast_k3", "ast", 3), ("relaxed_k3", "relaxed", 3)):
+    H(prop="C03", name=f"c03_tt_{suf}", crate="core-h", module="c03_align", kani_args=LIGHT, recursion=REC_FLAT, loops=LOOPS_FLAT, features=["hooks", "n4"], timeout=2400, tier="thorough", mem_gb=24,
+      decides=f"pattern [T,T] (two terminal children) under strictness {lvl}: the sibling alignment accepts a FLAT({k}) node => a legal alignment exists (every goal matched or skippable, every candidate matched or skippable, order kept)",
+      functions=ALIGN_FUNCS[:4] + ["ast_grep_core::match_tree::match_node::match_single_node_while_skip_trivial", "ast_grep_core::match_tree::ComputeEnd"], assumes=ALIGN_ASSUMES,
+      shape=f"FLAT({k})", bounds=f"2 goal terminals and exactly {k} candidate leaves (2 bytes wide) with symbolic kind in {{ident,number,comment,punct_a,punct_b}} and text; strictness {lvl} (concrete); arena of 4 nodes, unwind 8 (matcher loops 6), recursion depth 1")
 
 H(prop="C03", name="c03_terminal_step", crate="core-h", module="c03_terminal", features=["hooks", "n4"],
   decides="match_terminal / should_skip_trailing == decision table of the strictness documentation; MatchedBoth => kinds agree (or goal ERROR) and (unnamed or text equal or signature)",
@@ -263,6 +288,55 @@ for suf, desc, tier in LAYOUTS:
       functions=SCAN_FUNCS, assumes=SCAN_ASSUMES, kf_keys=["suppression_same_target_line"], shape=f"FLAT({desc.count(',')+1})",
       bounds=f"children {desc} (texts concrete), every monotone assignment of lines in [0,4] symbolic; rules ra (kind a), rb (kinds a or b) + unused-suppression rule; unwind 10")
 
+# ---------------------------------------------------------------- C01 kind-set algebra kernels
+for nm, op in (("all", "All::new: intersection, children without a set skipped"), ("any", "Any::new: union, a child without a set makes the result None")):
+    H(prop="C01", name=f"c01k_kinds_{nm}", crate="core-h", module="c04_ops", features=["hooks", "n4"], timeout=1800, mem_gb=16,
+      decides=f"the kind set cached by ops::{op} == the set computed from the children's advertised sets, so the kind gate never drops a node the composite could accept",
+      functions=["ast_grep_core::ops::All::new", "ast_grep_core::ops::All::compute_kinds", "ast_grep_core::ops::Any::new", "ast_grep_core::ops::Any::compute_kinds", "ast_grep_core::matcher::Matcher::potential_kinds"],
+      assumes=["children are stub matchers whose advertised kind set is a symbolic mask over kind ids 1..8, or None"],
+      shape="3 children", bounds="three children; which of them advertise a set: all 8 patterns (concrete loop); each set a symbolic mask over ids 1..8; bit sets of fixed capacity 16; unwind 10")
+
+for nm, form in (("all_not", "all[kind k1, not kind k2]"), ("any", "any[kind k1, kind k2]"), ("not_any", "not any[kind k1, kind k2]"), ("all_any_not", "all[any[kind k1, kind k2], not kind k3]")):
+    H(prop="C01", name=f"c01k_rule_kinds_{nm}", crate="config-h", module="c05_ops", timeout=1800, mem_gb=20, stubbing=True, recursion=REC_RULE,
+      assumes=[ST_REGEX], decides=f"Rule::potential_kinds of {form} contains every kind the rule accepts (reference semantics), and is exactly the documented set (all = intersection skipping set-less children, any = union, not = no set)",
+      functions=["ast_grep_config::rule::Rule::potential_kinds", "ast_grep_core::ops::All::compute_kinds", "ast_grep_core::ops::Any::compute_kinds", "ast_grep_core::ops::Not::potential_kinds", "ast_grep_core::matcher::KindMatcher::potential_kinds"],
+      shape="1 rule", bounds="k1, k2, k3 and the node kind symbolic in 1..8; rule value built from parts; unwind 10, Rule dispatch depth 3")
+
+# ---------------------------------------------------------------- C05 nthChild kernel
+H(prop="C05", name="c05k_nth_child_position_n4", crate="config-h", module="c05_nth", features=["hooks", "n4"], timeout=1800, mem_gb=16, stubbing=True, assumes=[ST_TS, ST_REGEX],
+  decides="NthChild (no ofRule) matches node X <=> X is named, has a parent, and its 1-based position among the parent's named children (from the end when reverse) is A*m+B for some m >= 0",
+  functions=["ast_grep_config::rule::nth_child::NthChild::match_node_with_env", "ast_grep_config::rule::nth_child::NthChild::find_index",
+             "ast_grep_config::rule::nth_child::FunctionalPosition::is_matched", "ast_grep_core::node::Node::parent", "ast_grep_core::node::Node::children"],
+  shape="ANY(4)", bounds="every tree with <= 4 nodes (symbolic shape, kinds, named flags), every node; A in [-2,2], B in [-2,4], reverse symbolic; unwind 10")
+
+H(prop="C05", name="c05k_range_position_3ch", crate="config-h", module="c05_range", timeout=1800, mem_gb=16, stubbing=True, assumes=[ST_TS, ST_REGEX],
+  decides="RangeMatcher (rule key `range`) matches a node <=> the node's start and end are exactly the requested 0-based (line, character column) positions",
+  functions=["ast_grep_config::rule::range::RangeMatcher::match_node_with_env", "ast_grep_core::node::Node::start_pos", "ast_grep_core::node::Node::end_pos",
+             "ast_grep_core::Position::column", "ast_grep_core::source::Content::get_char_column"],
+  shape="STR", bounds="one-node tree over the 9-byte text x0 U+00E9 x1 U+1F600 x2 with every x_i symbolic in {a, \\n}; every node range on character boundaries; requested lines in [0,3], columns in [0,5]; unwind 11")
+
+for nm, form in (("all_not", "all[kind k1, not kind k2]"), ("any", "any[kind k1, kind k2]"), ("not_any", "not any[kind k1, kind k2]"), ("all_any_not", "all[any[kind k1, kind k2], not kind k3]")):
+    H(prop="C05", name=f"c05k_logic_{nm}", crate="config-h", module="c05_ops", timeout=1800, mem_gb=20, stubbing=True, recursion=REC_RULE, tier="quick" if nm in ("all_not", "not_any") else "thorough",
+      assumes=[ST_TS, ST_REGEX, ST_MAP], decides=f"rule {form} matches a node <=> the conjunction / disjunction / negation of the kind tests on that node",
+      functions=["ast_grep_config::rule::Rule::match_node_with_env", "ast_grep_core::ops::All::match_node_with_env", "ast_grep_core::ops::Any::match_node_with_env", "ast_grep_core::ops::Not::match_node_with_env", "ast_grep_core::matcher::KindMatcher::match_node_with_env"],
+      shape="1 node", bounds="one-node tree; node kind and k1, k2, k3 symbolic in 1..8; rule value built from parts; unwind 10, Rule dispatch depth 3")
+
+# ---------------------------------------------------------------- C05 relational kernels (one call, ANY(4))
+REL_K = [("inside", "neighbor", False), ("inside", "end", False), ("inside", "rule", False), ("inside_field", "end", True), ("inside_field", "rule", True),
+         ("has", "neighbor", False), ("has", "end", False), ("has", "rule", False), ("has_field", "end", True),
+         ("follows", "neighbor", False), ("follows", "end", False), ("follows", "rule", False),
+         ("precedes", "neighbor", False), ("precedes", "end", False), ("precedes", "rule", False)]
+REL_K_QUICK = {"inside_neighbor", "inside_end", "inside_field_end", "has_neighbor", "has_end", "has_field_end", "follows_neighbor", "follows_end", "precedes_neighbor", "precedes_end"}
+REL_K_LAB = {"inside_rule", "inside_field_rule", "has_rule", "follows_rule", "precedes_rule"}  # stopBy rule: inclusive_until goes through MatcherExt::matches (NodeMatch + env clone): > 40 min
+for rel, stop, fld in REL_K:
+    nm = f"{rel}_{stop}"
+    H(prop="C05", name=f"c05k_{nm}_n4", crate="config-h", module="c05_rel", features=["hooks", "n4"], timeout=2400, mem_gb=20, stubbing=True, recursion=REC_RULE,
+      tier="quick" if nm in REL_K_QUICK else ("lab" if nm in REL_K_LAB else "thorough"), assumes=[ST_TS, ST_REGEX, "a field labels at most one child of a node (the reference's precondition)"],
+      decides=f"{rel.split('_')[0]} (stopBy: {stop}{', field' if fld else ''}) with goal `kind: number` and stop rule `kind: comment` matches node X <=> the reference quantification over ancestors / descendants / later / earlier siblings limited by stopBy (and field) says so",
+      functions=["ast_grep_config::rule::relational_rule::" + rel.split('_')[0].capitalize() + "::match_node_with_env", "ast_grep_config::rule::stop_by::StopBy::find",
+                 "ast_grep_config::rule::stop_by::inclusive_until", "ast_grep_core::node::Node::ancestors", "ast_grep_core::node::Node::next_all", "ast_grep_core::node::Node::prev_all"],
+      shape="ANY(4)", bounds="every tree with <= 4 nodes (symbolic shape), kinds in {ident, number, comment} and field labels symbolic, every node X; one matcher call; unwind 10")
+
 # ---------------------------------------------------------------- C14 table kernel
 TABLE_FUNCS = ["ast_grep_config::combined::Suppressions::collect", "ast_grep_config::combined::Suppressions::check_suppression",
                "ast_grep_config::combined::MaySuppressed::suppressed_id", "ast_grep_config::combined::parse_suppression_set",
@@ -304,6 +378,12 @@ for n, tier in ((4, "thorough"), (5, "thorough")):
       decides="string_case::split (word splitter of `convert`) never panics / slices off a char boundary; pieces are in-order non-overlapping sub-slices",
       functions=["ast_grep_config::transform::string_case::split", "ast_grep_config::transform::string_case::Delimiter::delimit", "ast_grep_config::transform::string_case::Delimiter::conclude"],
       assumes=[ST_UTF8], shape="STR", bounds=f"every byte length 0..{n} (concrete loop) x symbolic bytes over {{a, A, _, C3, 89}} restricted to valid UTF-8 (E-acute, upper case, 2 bytes); unwind {2*n}", timeout=1800 if n == 4 else 5400)
+
+for ln, tier in ((3, "quick"), (4, "thorough")):
+    H(prop="C11", name=f"c11_string_case_split_len{ln}", crate="config-h", module="small_kernels", fq=f"small_kernels::proofs_case::c11_string_case_split_len{ln}", tier=tier, timeout=1800, mem_gb=16,
+      decides="string_case::split (word splitter of `convert`) never panics / slices off a char boundary; pieces are in-order non-overlapping sub-slices",
+      functions=["ast_grep_config::transform::string_case::split", "ast_grep_config::transform::string_case::Delimiter::delimit", "ast_grep_config::transform::string_case::Delimiter::conclude"],
+      assumes=[ST_UTF8], shape="STR", bounds=f"texts of exactly {ln} bytes, symbolic bytes over {{a, A, _, C3, 89}} restricted to valid UTF-8 (E-acute, upper case, 2 bytes); unwind 10")
 
 # ---------------------------------------------------------------- C06 rewrite transformation
 for k, tier in ((2, "quick"), (3, "thorough")):
@@ -347,15 +427,15 @@ for suf, desc, k, tier in CUTS:
 # ---------------------------------------------------------------- C01 / C06 search drivers
 SEARCH_ASSUMES = [ST_TS, "matcher stub SymM: symbolic verdict per node; potential_kinds assumed to contain the kind of every node it accepts (the trait's contract)"]
 for n, tier in ((4, "quick"), (5, "thorough")):
-    H(prop="C01", name=f"c01_find_all_exact_n{n}", crate="core-h", module="c01_search", tier=tier,
+    H(prop="C01", name=f"c01_find_all_exact_n{n}", crate="core-h", module="c01_search", tier=tier, features=["hooks", "n4"] if n == 4 else ["hooks"],
       decides="FindAllNodes (kind prefilter + Pre) yields exactly the matching nodes of the subtree, ascending document order, none dropped/invented/duplicated",
       functions=["ast_grep_core::matcher::FindAllNodes::next", "ast_grep_core::traversal::Pre::next"], assumes=SEARCH_ASSUMES,
       shape=f"ANY({n})", bounds=f"every tree <= {n} nodes, every start node, symbolic verdict vector, symbolic kind set (or None) over kinds 1..8; unwind 10", timeout=5400 if n == 5 else 1800, mem_gb=20)
-    H(prop="C01", name=f"c01_outermost_pre_n{n}", crate="core-h", module="c01_search", tier=tier,
+    H(prop="C01", name=f"c01_outermost_pre_n{n}", crate="core-h", module="c01_search", tier=tier, features=["hooks", "n4"] if n == 4 else ["hooks"],
       decides="Visitor::reentrant(false) yields exactly the matched nodes without a matched proper ancestor, in document order",
       functions=["ast_grep_core::traversal::Visit::next", "ast_grep_core::traversal::Pre::calibrate_for_match", "ast_grep_core::traversal::Pre::trace_up"], assumes=SEARCH_ASSUMES,
       shape=f"ANY({n})", bounds=f"every tree <= {n} nodes, every start node, symbolic verdict vector; unwind 10", timeout=5400 if n == 5 else 1800, mem_gb=20)
-H(prop="C06", name="c06_replace_all_disjoint_n4", crate="core-h", module="c01_search",
+H(prop="C06", name="c06_replace_all_disjoint_n4", crate="core-h", module="c01_search", features=["hooks", "n4"],
   decides="Node::replace_all: edits ordered, pairwise disjoint, inside the file; each edit = [matched.start, matched.start + match_len)",
   functions=["ast_grep_core::node::Node::replace_all", "ast_grep_core::matcher::node_match::NodeMatch::make_edit", "ast_grep_core::replacer::Replacer::get_replaced_range"],
   assumes=SEARCH_ASSUMES + ["get_match_len stub returns a length <= the node's length"],
@@ -405,23 +485,23 @@ H(prop="C19", name="c19_field_access_n4", crate="core-h", module="c19_nav", assu
   shape="ANY(4)", bounds="every tree <= 4 nodes, symbolic field label in {none, fielda, fieldb} per node, every start node; unwind 10")
 
 for sh in range(2, 9):
-    H(prop="C19", name=f"c19_level_shape{sh}", crate="core-h", module="c19_nav", assumes=[ST_TS], timeout=1800, mem_gb=20, tier="thorough",
+    H(prop="C19", name=f"c19_level_shape{sh}", crate="core-h", module="c19_nav", assumes=[ST_TS], timeout=1800, mem_gb=20, tier="thorough", features=["hooks", "n4"],
+      loops={"<std::collections::VecDeque<tree_sitter_facade_sg::Node<": 5, "std::collections::VecDeque::<tree_sitter_facade_sg::Node<": 5},
       decides="Level from any start node visits exactly its subtree, once each, level by level",
       functions=["ast_grep_core::traversal::Level::next", "ast_grep_core::traversal::Level::new"],
-      shape=SHAPE_DESC[sh], bounds=f"tree shape {SHAPE_DESC[sh]} (concrete; one harness per shape), every start node x symbolic named bits and widths 0-2; unwind 10")
+      shape=SHAPE_DESC[sh], bounds=f"tree shape {SHAPE_DESC[sh]} (concrete; one harness per shape), every start node x symbolic named bits; unwind 10, VecDeque loops 5 (unwinding assertions on)")
 
 
 # ---------------------------------------------------------------- tier policy (measured)
-# quick = harnesses measured to finish in a few minutes; everything that needs tens of minutes
-# of symbolic execution (anything through MetaVarEnv, RuleCore/CombinedScan, String-heavy
-# template parsing) is thorough-tier.
-_HEAVY_PREFIXES = ("c03_env_", "c03_len_", "c02_", "c04_ops_", "c05d_", "c05_", "c14_ign", "c14_stm", "c14_plain", "c12_check", "c12_util", "c12_fix_forms_agree", "c01_combined", "c06_rewrite",
-                   "c07_template_scan", "c11_replace_regex_total", "c13_", "c01_find_all_exact_n", "c01_outermost_pre_n", "c06_replace_all_disjoint_n4", "c01_kinds_algebra", "c19_level_order_shapes_n4")
+# quick    = measured to finish within the quick cap (900 s) on this machine;
+# thorough = quick + deeper bounds measured to finish within their own timeout;
+# lab      = harnesses kept as the record of what was tried but which the engine does not
+#            decide on this machine (time-outs / out of memory, DESIGN 3).  They are run only
+#            with `--tier lab`; no registered command runs them, no claim rests on them.
+_LAB_PREFIXES = ("c03_env_", "c03_len_", "c03_tt_", "c07_indent_shift", "c05k_logic", "c01k_rule_kinds", "c02_", "c04_", "c05d_", "c05_", 
+                 "c14_", "c12_", "c13_", "c01_combined", "c01_kinds_algebra", "c01_find_all_shape", "c01_outermost_shape", "c01_find_all_exact_n", "c01_outermost_pre_n", "c06_replace_all_disjoint_n4",
+                 "c06_rewrite", "c06_replace_all_shape", "c07_template_scan", "c11_replace_regex_total", "c11_string_case_split", "c19_level")
 for _h in HARNESSES:
-    if _h["name"].startswith(_HEAVY_PREFIXES):
-        _h["tier"] = "thorough"
+    if _h["name"].startswith(_LAB_PREFIXES):
+        _h["tier"] = "lab"
         _h.setdefault("timeout", 5400)
-        if _h["timeout"] < 5400:
-            _h["timeout"] = 5400
-
-
